@@ -91,6 +91,7 @@ type TreeOpts struct {
 	BigStrings  bool // allow strings around 4096/8192
 	Canonical   bool // booleans are 0/1 only
 	AnyFieldIDs bool // field ids over the whole int16 range
+	NoBigCounts bool // never generate containers with 60..260 elements
 }
 
 // Tree generates a random value of type t.
@@ -120,6 +121,9 @@ func Tree(r *rand.Rand, t byte, o TreeOpts, depth int) ref.Value {
 		if depth < o.MaxDepth {
 			n = elemCount(r, o.MaxElems)
 		}
+		if bn, so, ok := bigCount(r, &o, depth); ok {
+			n, o = bn, so
+		}
 		for i := 0; i < n; i++ {
 			ft := pickType(r, depth+1 < o.MaxDepth)
 			id := int16(i + 1)
@@ -135,6 +139,9 @@ func Tree(r *rand.Rand, t byte, o TreeOpts, depth int) ref.Value {
 		if depth < o.MaxDepth {
 			n = elemCount(r, o.MaxElems)
 		}
+		if bn, so, ok := bigCount(r, &o, depth); ok {
+			n, o = bn, so
+		}
 		for i := 0; i < n; i++ {
 			v.Elems = append(v.Elems, Tree(r, v.KT, o, depth+1), Tree(r, v.VT, o, depth+1))
 		}
@@ -144,6 +151,9 @@ func Tree(r *rand.Rand, t byte, o TreeOpts, depth int) ref.Value {
 		if depth < o.MaxDepth {
 			n = elemCount(r, o.MaxElems)
 		}
+		if bn, so, ok := bigCount(r, &o, depth); ok {
+			n, o = bn, so
+		}
 		for i := 0; i < n; i++ {
 			v.Elems = append(v.Elems, Tree(r, v.VT, o, depth+1))
 		}
@@ -151,6 +161,21 @@ func Tree(r *rand.Rand, t byte, o TreeOpts, depth int) ref.Value {
 		panic("gen: bad type")
 	}
 	return v
+}
+
+// bigCount decides (rarely) that a container gets 60..260 children; the children are then kept small.
+func bigCount(r *rand.Rand, o *TreeOpts, depth int) (int, TreeOpts, bool) {
+	if o.NoBigCounts || depth >= o.MaxDepth || r.Intn(40) != 0 {
+		return 0, *o, false
+	}
+	small := *o
+	small.NoBigCounts = true
+	small.BigStrings = false
+	small.MaxElems = 4
+	if small.MaxDepth > depth+2 {
+		small.MaxDepth = depth + 2
+	}
+	return 60 + r.Intn(200), small, true
 }
 
 func elemCount(r *rand.Rand, max int) int {
@@ -240,6 +265,76 @@ func Nested(kind byte, depth int, inner int) []byte {
 	}
 	return b
 }
+
+// NestedPath builds `depth` nested containers where level i is entered through path[i%len(path)]:
+// 's' struct field, 'l' list element, 'e' set element, 'k' map key, 'v' map value. The innermost
+// container holds one i32 (or is empty when emptyInner).
+func NestedPath(path string, depth int, emptyInner bool) (b []byte, top byte) {
+	kindOf := func(c byte) byte {
+		switch c {
+		case 's':
+			return ref.STRUCT
+		case 'l':
+			return ref.LIST
+		case 'e':
+			return ref.SET
+		}
+		return ref.MAP
+	}
+	var tails [][]byte // bytes to emit after the child of each level (innermost last)
+	top = kindOf(path[0])
+	for i := 0; i < depth; i++ {
+		c := path[i%len(path)]
+		last := i == depth-1
+		var child byte = ref.I32
+		if !last {
+			child = kindOf(path[(i+1)%len(path)])
+		}
+		switch c {
+		case 's':
+			if last && emptyInner {
+				tails = append(tails, []byte{0})
+				continue
+			}
+			b = append(b, child, 0, 1)
+			tails = append(tails, []byte{0})
+		case 'l', 'e':
+			if last && emptyInner {
+				b = append(b, ref.I32, 0, 0, 0, 0)
+				tails = append(tails, nil)
+				continue
+			}
+			b = append(b, child, 0, 0, 0, 1)
+			tails = append(tails, nil)
+		case 'k': // the child sits in key position, the value is an i32
+			if last && emptyInner {
+				b = append(b, ref.I32, ref.I32, 0, 0, 0, 0)
+				tails = append(tails, nil)
+				continue
+			}
+			b = append(b, child, ref.I32, 0, 0, 0, 1)
+			tails = append(tails, []byte{0, 0, 0, 9})
+		default: // 'v': i32 key, child in value position
+			if last && emptyInner {
+				b = append(b, ref.I32, ref.I32, 0, 0, 0, 0)
+				tails = append(tails, nil)
+				continue
+			}
+			b = append(b, ref.I32, child, 0, 0, 0, 1, 0, 0, 0, 9)
+			tails = append(tails, nil)
+		}
+		if last {
+			b = append(b, 0, 0, 0, 7) // the innermost i32
+		}
+	}
+	for i := len(tails) - 1; i >= 0; i-- {
+		b = append(b, tails[i]...)
+	}
+	return b, top
+}
+
+// NestPaths are the entry-position patterns used for deep-nesting workloads.
+var NestPaths = []string{"s", "l", "e", "k", "v", "kv", "sk", "lk", "ke", "slkv", "vks", "kkv"}
 
 // GrammarAlphabet is the byte alphabet for bounded-exhaustive hostile strings.
 var GrammarAlphabet = []byte{0, 1, 2, 3, 6, 8, 0x0b, 0x0c, 0x0d, 0x0e, 0x0f, 0x10, 0x7f, 0x80, 0xff}
